@@ -154,6 +154,15 @@ HOp make_load(RunCtx& ctx, Rng& rng, int session)
         Model m = gen_model(rng, cfg);
         if (rng.chance(0.25))
             m.gdecls[0].text = long_comment(rng) + m.gdecls[0].text;
+        if (rng.chance(0.1)) {
+            // an external library: looked for relative to the working directory of the call (the simulated dlopen refuses,
+            // naming the path it was asked for)
+            MDecl imp;
+            imp.kind = MDecl::OTHER;
+            imp.name = "zext";
+            imp.text = "import \"libzz.so\" { int zext(int a); };";
+            m.gdecls.push_back(imp);
+        }
         if (rng.chance(0.15)) {
             // a model whose meaning is wrong (duplicate names, missing system, ...): diagnostics and recovery paths
             int f = rng.below(MF_COUNT);
@@ -665,6 +674,15 @@ void profile_history(RunCtx& ctx)
         return;
     }
     Rng rng{ctx.run_seed};
+    // a fixed working directory (results may mention it) and, in some runs, a tight descriptor budget: descriptors the
+    // library opens itself and leaves open use it up, as under RLIMIT_NOFILE (the reference processes inherit both)
+    if (chdir("/") != 0) {
+    }
+    if (rng.chance(0.35)) {
+        const int budget = rng.range(1, 3);
+        fd_budget_set(budget);
+        ctx.count("runs-with-descriptor-budget");
+    }
     // ---- plan (complete before the first library call) ----
     const int nclients = rng.range(2, 4);
     const int nsessions = ctx.thorough ? rng.range(3, 15) : rng.range(2, 7);
@@ -732,7 +750,12 @@ void profile_history(RunCtx& ctx)
     }
     // environment events
     uint64_t virtual_clock = 0;
+    // the host application changes its working directory between calls (each call then names its directory, so that the
+    // reference execution of the session sees the same one)
+    const bool cwd_moves = rng.chance(0.3);
     for (auto& op : plan) {
+        if (cwd_moves)
+            op.call.cwd = 1 + (int)rng.below(3);
         if (!(ctx.simplify & SIMP_NOERRNO) && rng.chance(0.5)) {
             static const int errs[] = {EINTR, ENOENT, EIO, ERANGE, EAGAIN, ENOMEM, 4095};
             op.call.errno_before = errs[rng.below(7)];
